@@ -128,3 +128,24 @@ CLAIMED['C12'] = dict(
          "are solver variables.",
     technique="SMT equivalence between the real engine's final symbolic state and a direct IR executor, per program",
     design_ref="DESIGN.md §3 C12", engine='irsym+refsem')
+
+CLAIMED['C47'] = dict(
+    level='other',
+    text="The real Windows/Linux helper stubs run on a mock jitter with symbolic 32-bit arguments and symbolic memory bytes: "
+         "RtlLargeIntegerAdd/Subtract/ShiftRight and the two 64-bit multiplies are proved equal to 64-bit modular arithmetic for "
+         "all arguments; RtlCompareMemory, memcmp, memcpy, RtlMoveMemory, memset, strlen, lstrlenA/lstrcpyA/lstrcatA/lstrcmpA/"
+         "lstrcpyn and the linux_stdlib counterparts are proved against C semantics for all byte contents with lengths 0..3 "
+         "(quick) / 0..4 (thorough).",
+    note="Trusted: z3, vf/symx.py, vf/mockjit.py (mock jitter/VM), vf/symbytes.py (cp1252 codec model). Two codec-related "
+         "defects are recorded in known_findings.json (C47-KF1, C47-KF2). RtlComputeCrc32 (zlib) is outside.",
+    technique="symbolic execution of the real Python stubs on a mock jitter (symbolic args and bytes) + z3 per-path queries",
+    design_ref="DESIGN.md §3 C47")
+CLAIMED['C48'] = dict(
+    level='other',
+    text="heap.alloc, HeapAlloc, VirtualAlloc (with enumerated hint kinds), mmap (hinted, fixed), brk and a mixed scenario run "
+         "on a mock VM with symbolic request sizes (0..2^24); after every request z3 proves the returned region fully mapped "
+         "(symbolic probe address), disjoint from and at a different address than every other live allocation.",
+    note="Trusted: z3, vf/symx.py, vf/mockjit.py whose overlap rule copies vm_mngr.c is_mpn_in_tab (the C manager itself is "
+         "not claimed). Histories of 3 (quick) / 4 (thorough) requests.",
+    technique="symbolic execution of the real Python allocators on a mock VM (symbolic sizes) + z3 per-path queries",
+    design_ref="DESIGN.md §3 C48")
